@@ -79,7 +79,7 @@ func New(opts ...ReaderOption) *Reader {
 	r := &Reader{
 		sniffer: &formats.Sniffer{},
 		Storage: storage.NewFileSystem(),
-		Options: defaultOptions,
+		Options: defaultOptions.copy(),
 	}
 
 	for _, opt := range opts {
